@@ -66,7 +66,12 @@ def histories(tier, seed):
                 if draw(st.booleans()):
                     step["set"] = {}
             hist.append(step)
-        other = draw(st.integers(0, 4)) == 0
+        if not hist[-1]["set"]:
+            # a history ending in "back to the defaults" only says something if the state before
+            # was away from them: make sure an effective setting was changed first
+            hist[0]["set"]["nonorthogonal_xpoint_poloidal_spacing_length"] = draw(st.sampled_from([0.02, 0.2]))
+            hist[0]["set"]["nonorthogonal_target_all_poloidal_spacing_length"] = draw(st.sampled_from([0.2, 1.0]))
+        other = draw(st.integers(0, 4)) == 0 and bool(hist[-1]["set"])
         if other:
             ok = draw(st.sampled_from(sorted(OTHER)))
             hist[-1]["set"][ok] = draw(st.sampled_from(OTHER[ok]))
@@ -75,12 +80,19 @@ def histories(tier, seed):
     n = 8 if tier == "quick" else 64
 
     def key(d):
-        reset = any(s_.get("reset") for s_ in d["history"])
-        empty = any(s_.get("reset") and not s_["set"] and s_.get("style") == "minimal" for s_ in d["history"])
-        k = "reset=%s/other=%s" % ("empty-dict" if empty else reset, d["changes_other_setting"])
+        # the grid is compared with a fresh build after the *last* step only, so what the last step is
+        # decides what a history can show: redistributePoints({}), another reset, or a plain change
+        last = d["history"][-1]
+        if last.get("reset") and not last["set"] and last.get("style") == "minimal":
+            final = "empty-dict"
+        elif last.get("reset"):
+            final = "reset"
+        else:
+            final = "change"
+        k = "final=%s/other=%s" % (final, d["changes_other_setting"])
         return k if tier == "quick" else "%s/%s/%d" % (k, d["eq"]["topology"], len(d["history"]))
 
-    return corpus.collect(build(), n, seed + 1500, keyfn=key, oversample=12)
+    return corpus.collect(build(), n, seed + 1500, keyfn=key, oversample=30 if tier == "quick" else 12)
 
 
 def run(run):
